@@ -2,12 +2,15 @@ package extension
 
 import (
 	"context"
+	"encoding/json"
+	"strconv"
 
 	"github.com/vektah/gqlparser/v2"
 	"github.com/vektah/gqlparser/v2/ast"
 
 	"github.com/99designs/gqlgen/complexity"
 	"github.com/99designs/gqlgen/graphql"
+	"github.com/99designs/gqlgen/graphql/executor"
 	"github.com/99designs/gqlgen/zzsym"
 )
 
@@ -202,4 +205,103 @@ func Harness_C14_gate() {
 	st, _ := opCtx.Stats.GetExtension(complexityExtension).(*ComplexityStats)
 	zzsym.Assert(st != nil && st.Complexity == want && st.ComplexityLimit == limit, "stats record the computed complexity and limit")
 	zzsym.Reach("c14.gate")
+}
+
+// c14VarES: the custom cost of Query.items / User.friends depends on the
+// "first" argument (first x child complexity, the usual pagination cost).
+type c14VarES struct {
+	execs int
+}
+
+func (e *c14VarES) Schema() *ast.Schema { return c14Schema }
+func (e *c14VarES) Exec(ctx context.Context) graphql.ResponseHandler {
+	e.execs++
+	return graphql.OneShot(&graphql.Response{Data: []byte(`{}`)})
+}
+func (e *c14VarES) Complexity(ctx context.Context, typeName, field string, child int, args map[string]any) (int, bool) {
+	if (typeName == "Query" && field == "items") || (typeName == "User" && field == "friends") {
+		switch n := args["first"].(type) {
+		case int64:
+			return int(n) * child, true
+		case int:
+			return n * child, true
+		}
+	}
+	return 0, false
+}
+
+type c14VarCase struct {
+	query string
+	vars  func(n int64, form int) map[string]any
+	cost  func(n int64) int // the documented complexity given the coerced value of $n
+}
+
+func c14N(n int64, form int) any {
+	if form == 1 {
+		return json.Number(strconv.FormatInt(n, 10))
+	}
+	return n
+}
+
+func c14Pag(first int64, child int) int { // custom cost unless below the children
+	if c := int(first) * child; c >= child {
+		return c
+	}
+	return 1 + child
+}
+
+var c14VarCases = []c14VarCase{
+	{`query Q($n: Int) { items(first: $n) { title } }`,
+		func(n int64, f int) map[string]any { return map[string]any{"n": c14N(n, f)} },
+		func(n int64) int { return c14Pag(n, 1) }},
+	{`query Q($n: Int = 4) { items(first: $n) { title } }`,
+		func(n int64, f int) map[string]any { return nil },
+		func(n int64) int { return c14Pag(4, 1) }},
+	{`query Q($n: Int = 4) { items(first: $n) { title } }`,
+		func(n int64, f int) map[string]any { return map[string]any{"n": c14N(n, f)} },
+		func(n int64) int { return c14Pag(n, 1) }},
+	{`{ items(first: 5) { title owner { id } } }`,
+		func(n int64, f int) map[string]any { return nil },
+		func(n int64) int { return c14Pag(5, 3) }},
+	{`query Q($n: Int!) { me { friends(first: $n) { name id } } }`,
+		func(n int64, f int) map[string]any { return map[string]any{"n": c14N(n, f)} },
+		func(n int64) int { return 1 + c14Pag(n, 2) }},
+	{`query Q($n: Int!, $m: Int = 2) { items(first: $m) { owner { friends(first: $n) { id } } } }`,
+		func(n int64, f int) map[string]any { return map[string]any{"n": c14N(n, f)} },
+		func(n int64) int { return c14Pag(2, 1+c14Pag(n, 1)) }},
+}
+
+// Harness_C14_variables: the gate end to end through the real executor
+// (CreateOperationContext with the ComplexityLimit extension installed): an
+// argument supplied through a request variable (as int64 or json.Number,
+// with or without a declared default) costs exactly what the same literal
+// costs; rejected iff that complexity exceeds the (symbolic) limit, and a
+// rejected operation is never dispatched.
+func Harness_C14_variables() {
+	ci := zzsym.Choice("case", len(c14VarCases))
+	c := c14VarCases[ci]
+	n := []int64{0, 1, 9, 1000}[zzsym.Choice("n", 4)]
+	form := zzsym.Choice("numform", 2)
+	limit := zzsym.Int("limit")
+	es := &c14VarES{}
+	ex := executor.New(es)
+	var seen *ComplexityStats
+	ex.Use(&ComplexityLimit{Func: func(ctx context.Context, opCtx *graphql.OperationContext) int { return limit }})
+	ctx := graphql.StartOperationTrace(context.Background())
+	rc, errs := ex.CreateOperationContext(ctx, &graphql.RawParams{Query: c.query, Variables: c.vars(n, form)})
+	want := c.cost(n)
+	if rc != nil {
+		seen, _ = rc.Stats.GetExtension(complexityExtension).(*ComplexityStats)
+	}
+	zzsym.Assert((len(errs) != 0) == (want > limit), "an operation is rejected exactly when its complexity (with the request's variable values) exceeds the limit")
+	if len(errs) == 0 {
+		zzsym.Assert(seen != nil && seen.Complexity == want, "the recorded complexity is the documented one for the request's variable values")
+		h, hctx := ex.DispatchOperation(ctx, rc)
+		h(hctx)
+		zzsym.Assert(es.execs == 1, "an accepted operation is dispatched")
+		zzsym.Reach("c14.vars.accepted")
+	} else {
+		zzsym.Assert(es.execs == 0, "a rejected operation executes nothing")
+		zzsym.Reach("c14.vars.rejected")
+	}
 }
